@@ -415,3 +415,9 @@ func exprKey(v ssa.Value) string {
 	}
 	return v.Name()
 }
+
+// FieldAddrName returns the name of the field a FieldAddr selects.
+func FieldAddrName(fa *ssa.FieldAddr) string {
+	st := fa.X.Type().Underlying().(*types.Pointer).Elem().Underlying().(*types.Struct)
+	return st.Field(fa.Field).Name()
+}
